@@ -219,6 +219,12 @@ def check_message(e, files_by_id, want_tok=None, want_off=None):
     return bad, info
 
 
+def py_span_to_chars(s, a, b):
+    """what `composed` does to a byte span (a, b) of text s: both ends on character boundaries -> character offsets, else unchanged"""
+    ca, cb = byte_to_char(s, a), byte_to_char(s, b)
+    return (ca, cb) if ca is not None and cb is not None else (a, b)
+
+
 def model_composed(v):
     """parsed value of `flat_composed (composed_one ..)` -> "PANIC" | (span dict | None, location dict | None)"""
     if v == "Panic":
@@ -347,19 +353,15 @@ def run():
         t = tpls[case["ti"]]
         k = case.get("kind")
         if k == "panic":
-            if "is out of bounds of the source" in case.get("msg", "") and case["nonascii_prefix"] and case["lex_ok"]:
-                return "F9-byte-spans-read-as-chars"
+            # F9 (byte spans read as characters: the assert behind non-ASCII text) was repaired by d3106b1: every panic is a violation
             return None
         clauses = set(case.get("clauses", []))
         if "span-names-no-file" in clauses or "location-for-foreign-span" in clauses or "wrong-file" in clauses:
             # C13-N2 (span into std.prql) was repaired by 7cb9d46: a span that names no file of the tree is a violation
             return None
         if t.get("known") == "interp-rebase" and clauses <= {"slice-not-found-token", "span-not-offending-token", "location-not-position", "display-misses-line", "out-of-bounds", "no-location", "no-display"}:
-            # either the pure rebasing defect (ASCII) or rebasing + F9
+            # the rebasing defect (a wrong byte span can also end inside a code point, which `composed` then leaves unconverted)
             return "C13-N1-interp-span-rebase"
-        bi = case.get("byte_info") or {}
-        if case["lex_ok"] and bi.get("byte_boundaries") and bi.get("nonascii_before") and bi.get("byte_ok"):
-            return "F9-byte-spans-read-as-chars"
         return None
 
     # Error::new_simple sites of the regenerated inventory: which were seen, with or without a span
@@ -482,15 +484,11 @@ def run():
 
     # ---------------------------------------------------------------- 3. Span.v vs implementation on the real spans
     if model_ok:
-        # 3a composed_one: (source, span) -> location | Panic
+        # 3a compose_location on every reported (character) span: the reported location is the model's position of its ends
         seen, exprs, keys = set(), [], []
         for c in cases:
             a = c["ans"]
             items = list(c.get("spans", []))
-            if "panic" in a:
-                m = re.search(r"span Some\((\d+):(\d+)-(\d+)\) is out of bounds", a["panic"].get("msg", ""))
-                if m:
-                    items.append(({"source_id": int(m.group(1)), "start": int(m.group(2)), "end": int(m.group(3))}, "PANIC"))
             for sp, loc in items:
                 s = c["files_by_id"].get(str(sp["source_id"]))
                 if s is None or len(s) > 400:
@@ -499,7 +497,7 @@ def run():
                 if kk in seen:
                     continue
                 seen.add(kk)
-                exprs.append("flat_composed (composed_one [(%d, %s)] (Some (Span %d %d %d)))" % (sp["source_id"], coq_codes(s), sp["start"], sp["end"], sp["source_id"]))
+                exprs.append("compose_location %s (Span %d %d %d)" % (coq_codes(s), sp["start"], sp["end"], sp["source_id"]))
                 keys.append((s, sp, loc))
         cap = ck.n(700, 4000)
         if len(exprs) > cap:
@@ -512,11 +510,10 @@ def run():
             ck.coverage["model_eval_error"] = str(ex)[-400:]
         for (s, sp, loc), v in zip(keys, vals):
             ck.count("corr-composed", json.dumps([s, sp["start"], sp["end"]]))
-            mv = model_composed(v)
-            iv = "PANIC" if loc == "PANIC" else (sp, loc)
-            if mv != iv:
-                ck.violation("Model/Span.v composed_one differs from the implementation for span %s: model %s, impl %s" % (sp, mv, iv),
-                             {"src": s, "span": sp, "model": str(mv), "impl": str(iv), "kind": "correspondence"})
+            mv = None if v == "None" else {"start": [v[1][0], v[1][1]], "end": list(v[1][2])}
+            if mv != loc:
+                ck.violation("Model/Span.v compose_location differs from the reported location for span %s: model %s, impl %s" % (sp, mv, loc),
+                             {"src": s, "span": sp, "model": str(mv), "impl": str(loc), "kind": "correspondence"})
         # 3a' composed on arbitrary spans (harness c13compose: Error::new_simple + with_span -> ErrorMessages::from -> composed
         # against SourceTree::new): in and out of bounds, reversed, ids inside and outside the tree (0 = std.prql), 1-3 files
         trees, reqs, exprs, keys = [], [], [], []
@@ -638,9 +635,10 @@ def run():
                 continue
             j = jdx[0]
             ck.stat("corr-map-span", "tokens=%d" % min(j - i, 3))
-            exprs.append("let sp := map_span [%s] %d %d 1 in (sp_start sp, sp_end sp)" % ("; ".join("(%d, %d)" % t for t in toks), i, j))
-            sp = c["ans"]["err"][0]["span"]
-            exp.append((c, (sp["start"], sp["end"])))
+            # parser_error_reported = composed_one over map_span of the lexer's token BYTE spans: character span + location
+            exprs.append("flat_composed (parser_error_reported %s [%s] %d %d)" % (coq_codes(c["src"]), "; ".join("(%d, %d)" % t for t in toks), i, j))
+            e0 = c["ans"]["err"][0]
+            exp.append((c, (e0["span"], e0["location"])))
         try:
             vals = coq_eval(header, exprs)
         except RuntimeError as ex:
@@ -648,9 +646,11 @@ def run():
             ck.coverage["model_eval_error"] = str(ex)[-400:]
         for (c, want), v in zip(exp, vals):
             ck.count("corr-map-span", c["src"])
-            if tuple(v) != want:
-                ck.violation("Model/Span.v map_span differs from the parser's error span on %r: model %s, impl %s" % (c["src"], v, want),
-                             {"src": c["src"], "model": str(v), "impl": str(want), "kind": "correspondence"})
+            mv = model_composed(v)
+            ck.stat("corr-map-span", "nonascii-before" if any(ord(ch) > 127 for ch in c["src"][:c["off"]]) else "ascii-before")
+            if mv != want:
+                ck.violation("Model/Span.v parser_error_reported (map_span + composed) differs from the parser's reported error on %r: model %s, impl %s" % (c["src"], mv, want),
+                             {"src": c["src"], "model": str(mv), "impl": str(want), "kind": "correspondence"})
 
     # ---------------------------------------------------------------- 3d. interpolation rebasing over the string grammar
     # Model/InterpSpan.v predict_reported: from the text of the s-/f-string token and the true place of the offending text
@@ -705,6 +705,8 @@ def run():
         if right != (quotes == 1 and not esc):
             ck.violation("interp_reported is %s for %d quote(s), escape before: %s on %r (contradicts c13_interp_rebase_exact)" % ("right" if right else "wrong", quotes, esc, c["src"]),
                          {"src": c["src"], "kind": "correspondence"})
+        # the parser's span counts bytes; `composed` turns it into characters (or leaves it, when the wrong span ends inside a code point)
+        pred = py_span_to_chars(c["src"], pred[0], pred[1])
         if pred != real:
             ck.violation("Model/InterpSpan.v interp_reported differs from the span reported for the error inside the string of %r: model %s, impl %s" % (c["src"], pred, real),
                          {"src": c["src"], "model": str(pred), "impl": str(real), "kind": "correspondence"})
@@ -781,7 +783,10 @@ def run():
                              % (d["err"], d["call"], mo, mm, d["out"], d["moved"]),
                              {"src": c["src"], "err": d["err"], "call": d["call"], "model": mo, "impl": d["out"], "kind": "correspondence"})
     # v2 lines against the model (the real returned value); absent until hooks/respan2.diff is in the tree
-    ck.coverage["respan2_hook"] = "present" if lines2 else "absent (hooks/respan2.diff not in this tree: only v1 lines + the chain check tie the moving branch)"
+    ck.coverage["respan2_hook"] = "present" if lines2 else "absent"
+    if lines and not lines2:
+        ck.violation("the hook `verif:respan2` (committed in 02d89ec: the span fold_function really returns) produced no line although verif:respan did",
+                     {"kind": "hook-missing", "hook": "verif:respan2"}, no_input=True)
     uniq2 = {}
     for c, d in lines2:
         uniq2.setdefault(json.dumps([d["err"], d["call"]]), []).append((c, d))
@@ -806,7 +811,11 @@ def run():
         if not got or "err" not in a or len(a["err"]) != 1 or got[-1]["out"] is None:
             continue
         out = got[-1]["out"]
-        want = {"start": out[0], "end": out[1], "source_id": out[2]} if out[2] == 1 else None
+        if out[2] == 1:
+            ca, cb = py_span_to_chars(c["src"], out[0], out[1])
+            want = {"start": ca, "end": cb, "source_id": 1}
+        else:
+            want = None
         ck.count("chain-respan-composed", c["src"])
         if a["err"][0].get("span") != want:
             ck.violation("the reported span %s is not what `composed` makes of the span %s returned by the outermost fold_function" % (a["err"][0].get("span"), out),
